@@ -196,6 +196,7 @@ func binEngineUnits(m *monitor) []func() {
 		if k.fixed {
 			jobs = append(jobs, fixedJobs(r, rng, kind)...)
 		}
+		jobs = append(jobs, aliasJobs(r, rng, kind)...)
 	}
 	batches := packJobs(jobs, 30)
 	var units []func()
@@ -323,26 +324,104 @@ func fixedJobs(r *vcore.Run, rng *rand.Rand, kind string) []binJob {
 			jobs = append(jobs, binJob{kind: kind, msg: msg, content: content, fixed: true, length: n})
 		}
 	}
-	// WithMinimalLength: lower bound on the actual length
-	type ml struct{ maxLen, minLen, n int }
-	var mls []ml
-	switch {
-	case r.Quick() && kind == "sha256":
-		mls = []ml{{64, 64, 1}, {120, 56, 2}}
-	case r.Quick() && (kind == "sha3-256" || kind == "keccak512"):
-		mls = []ml{{B + 1, B - 1, 2}}
-	case r.Quick():
-	case k.md:
-		mls = []ml{{64, 1, 12}, {64, 64, 1}, {120, 56, 12}, {120, 64, 12}, {120, 65, 12}, {120, 120, 1}}
-	default:
-		mls = []ml{{B + 1, 1, 8}, {B + 1, B - 1, 3}, {B + 1, B, 2}, {B + 1, B + 1, 1}, {2*B + 1, B + 1, 6}}
-	}
-	for _, x := range mls {
-		msg := makeMsg(rng, x.maxLen, "random")
-		for _, n := range pickLens(rng, k, x.minLen, x.maxLen, x.n) {
-			jobs = append(jobs, binJob{kind: kind, msg: msg, content: "random", fixed: true, length: n, minLen: x.minLen})
+	// WithMinimalLength: lower bound on the actual length, away from and on the boundaries
+	if r.Thorough() && k.md {
+		msg := makeMsg(rng, 64, "random")
+		for _, n := range pickLens(rng, k, 1, 64, 6) {
+			jobs = append(jobs, binJob{kind: kind, msg: msg, content: "random", fixed: true, length: n, minLen: 1})
 		}
 	}
+	var ms, offs []int
+	switch {
+	case r.Quick() && kind == "sha256":
+		ms, offs = []int{55, 56, 64}, []int{1}
+	case r.Quick() && (kind == "sha3-256" || kind == "sha3-512"):
+		ms, offs = []int{B - 1, B}, []int{1}
+	case r.Quick():
+		ms, offs = []int{B - 1}, []int{1}
+	case kind == "sha256": // the full grid with two more blocks runs on compiled circuits
+		ms, offs = []int{54, 55, 56, 63, 64, 65, 120}, []int{1, 64}
+	case kind == "sha3-256" || kind == "sha3-512":
+		ms, offs = []int{B - 10, B - 9, B - 8, B - 2, B - 1, B, B + 1, 2*B - 1, 2 * B, 2*B + 1}, []int{1, B}
+	default:
+		ms, offs = []int{B - 10, B - 9, B - 8, B - 1, B, B + 1}, []int{1}
+	}
+	jobs = append(jobs, minLenBoundaryJobs(rng, kind, ms, offs)...)
+	return jobs
+}
+
+// minLenBoundaryJobs: WithMinimalLength(m) with m on and next to block / padding
+// boundaries, declared maximum m+off, actual length m, m+1 and the maximum.
+func minLenBoundaryJobs(rng *rand.Rand, kind string, ms, offs []int) []binJob {
+	var jobs []binJob
+	for _, m := range ms {
+		if m < 1 {
+			continue
+		}
+		for _, off := range offs {
+			maxLen := m + off
+			msg := makeMsg(rng, maxLen, "random")
+			seen := map[int]bool{}
+			for _, n := range []int{m, m + 1, maxLen} {
+				if n <= maxLen && !seen[n] {
+					seen[n] = true
+					jobs = append(jobs, binJob{kind: kind, msg: msg, content: "random", fixed: true, length: n, minLen: m})
+				}
+			}
+		}
+	}
+	return jobs
+}
+
+// seqJob builds one caller-buffer job: buf of n random bytes, "other" differing
+// from what buf holds behind position k in every byte.
+func seqJob(rng *rand.Rand, kind, seq string, k, n, olen int) binJob {
+	buf := makeMsg(rng, n, "random")
+	j := binJob{kind: kind, msg: buf, content: "random", seq: seq, k: k}
+	if seq != "reuse" {
+		j.other = makeMsg(rng, olen, "random")
+		for i := range j.other {
+			if k+i < n {
+				j.other[i] = ^buf[k+i]
+			}
+		}
+	}
+	return j
+}
+
+// aliasJobs: does the hasher keep (and later write through) the caller's slices?
+// k = length of the first Write, around the block / padding boundaries.
+func aliasJobs(r *vcore.Run, rng *rand.Rand, kind string) []binJob {
+	k := binKinds[kind]
+	B := k.block
+	var jobs []binJob
+	if r.Quick() {
+		switch kind {
+		case "sha256":
+			jobs = append(jobs, seqJob(rng, kind, "alias", B-1, B+7, 5), seqJob(rng, kind, "reuse", 7, 20, 0))
+		case "ripemd160", "sha3-256":
+			jobs = append(jobs, seqJob(rng, kind, "alias", B-1, B+7, 5))
+		default:
+			jobs = append(jobs, seqJob(rng, kind, "alias-reset", 1, 9, 5))
+		}
+		return jobs
+	}
+	ks := []int{0, 1, B - 2, B - 1, B, B + 1}
+	if k.md {
+		ks = []int{0, 1, B - 9, B - 8, B - 1, B, B + 1}
+	}
+	for i, kk := range ks {
+		switch i % 3 {
+		case 0:
+			jobs = append(jobs, seqJob(rng, kind, "alias", kk, kk+8, 5))
+		case 1:
+			jobs = append(jobs, seqJob(rng, kind, "alias-reset", kk, kk+12, 12)) // fills the spare capacity exactly
+		case 2:
+			jobs = append(jobs, seqJob(rng, kind, "alias-sum", kk, kk+80, 3)) // room for Sum's own padding
+		}
+	}
+	jobs = append(jobs, seqJob(rng, kind, "alias", B-1, 2*B+5, B+2)) // second Write crosses a block
+	jobs = append(jobs, seqJob(rng, kind, "reuse", 7, 20, 0), seqJob(rng, kind, "reuse", B, 2*B+3, 0), seqJob(rng, kind, "reuse", B-1, B+5, 0))
 	return jobs
 }
 
